@@ -14,7 +14,7 @@ import traceback
 from . import kani as K
 from . import verus as V
 from . import replay as R
-from .common import VERIF, REPO, Undecided, make_scratch, drop_scratch, log, write_json
+from .common import VERIF, REPO, Undecided, make_scratch, drop_scratch, log, write_json, install_signal_handlers
 
 LOCK = os.path.join(VERIF, "contracts", "obligations.lock.json")
 FINDINGS = os.path.join(VERIF, "known_findings.json")
@@ -49,6 +49,7 @@ def main(argv=None):
     ap.add_argument("--only", help="comma list of harness/function name substrings (debugging; never passes the lock check)")
     ap.add_argument("--jobs", type=int, default=int(os.environ.get("VERIF_JOBS", "16")))
     a = ap.parse_args(argv)
+    install_signal_handlers()
     seed = int(os.environ.get("VERIF_SEED", "0") or 0)
     prop = a.prop
     t0 = time.time()
